@@ -958,6 +958,10 @@ static int ec_glob(char *loc, char *cmd, char *arg, char *txt)
 	char *pat;
 	char *s = arg;
 	int i;
+	if (xgdep >= 7) {	/* the line marks have a bit for each of seven levels */
+		ex_show("nested too deeply");
+		return 1;
+	}
 	if (!loc[0] && !xgdep)
 		strcpy(loc, "%");
 	if (ex_region(loc, &beg, &end) || (!end && lbuf_len(xb)))
